@@ -125,6 +125,8 @@ func setup2(t *testing.T) *env {
 	e.dec = palomamodule.NewVerifyAuthorisedSignatureDecorator(fg)
 	e.tf = tfkeeper.NewMsgServerImpl(tk)
 	e.tfK = tk
+	e.palomaK = pal
+	e.cdc2 = cdc
 	e.paloma = palomakeeper.NewMsgServerImpl(*pal)
 	e.bank = bk
 	for i := 0; i < nVals; i++ {
